@@ -51,6 +51,20 @@ pub fn build(rng: &mut Rng, i: usize) -> PDB {
         atf: i % 2 == 0,
     };
     let mut pdb = gen::structure(rng, &sh);
+    // model numbers: from 1 (as generated), from 0 (what a PDB file without MODEL records gives), or with gaps
+    match rng.below(4) {
+        0 => {
+            for (k, m) in pdb.models_mut().enumerate() {
+                m.set_serial_number(k);
+            }
+        }
+        1 => {
+            for (k, m) in pdb.models_mut().enumerate() {
+                m.set_serial_number(3 + 4 * k);
+            }
+        }
+        _ => {}
+    }
     // identifiers unique over the whole structure; charges follow the position inside the model so that the models correspond
     let per_model = pdb.model(0).map_or(1, Model::atom_count).max(1);
     let charge_seed = rng.next();
